@@ -12,7 +12,10 @@ Lemma C03_facts_ok :
   wal_calls_one_batch = Known true /\
   (* a restarted replica is handed every committed entry after its snapshot again: the raft node is configured with
      the stored log as it is (no Applied index set) *)
-  raft_config_shape = Known true.
+  raft_config_shape = Known true /\
+  (* installing a received snapshot replaces the whole stored log (C06's Save): nothing older than the snapshot is left
+     for a later restart to replay on top of it *)
+  wal_save_snapshot_first = Known true.
 Proof. repeat split; reflexivity. Qed.
 
 (* (1) persist before acknowledge: an entry is applied — the proposer's outcome is delivered inside the apply — only
